@@ -23,6 +23,7 @@ typedef long long R;
 #include "Representation.inc"
 enum { K_NONE = 0, K_COSOLVE = 1, K_SOLVE = 2, K_MULTBASEWITH = 3, K_MULTWITHBASE = 4 };
 
+int g_ssdim;
 int g_n, g_nc, g_p, g_i, g_w, g_in, g_knum;
 R v_kout, v_kin;
 int g_kcalls, g_kkind, g_kx_ok, g_rhs_size, g_rhs_idx; R g_rhs_val;
@@ -51,7 +52,7 @@ __CPROVER_requires(0 <= g_p && g_p < n && v_rexp_p == rowexp[g_p] && EXP_OK(v_re
 __CPROVER_requires(GAMMA_DEF(v_gamma_p, g_p) && EXP_OK(v_gamma_p)) \
 __CPROVER_requires(g_scale == (SCALE ? 1 : 0))
 #define COMMON_ASSIGNS \
-__CPROVER_assigns(g_w, g_in, g_knum, v_kout, v_kin, g_kcalls, g_kkind, g_kx_ok, g_rhs_size, g_rhs_idx, g_rhs_val, g_setup_calls, g_ensure_calls) \
+__CPROVER_assigns(g_ssdim, g_w, g_in, g_knum, v_kout, v_kin, g_kcalls, g_kkind, g_kx_ok, g_rhs_size, g_rhs_idx, g_rhs_val, g_setup_calls, g_ensure_calls) \
 __CPROVER_assigns(gp_s1, gp_s2, g_s1_used, g_s2_used, gp_xidx, gp_kout, gp_local_x, gp_coef, gp_inds, gp_ninds, gp_vec, gp_rhs, gp_sol) \
 __CPROVER_assigns(__CPROVER_object_whole(s1), __CPROVER_object_whole(kout))
 
